@@ -13,7 +13,6 @@ import (
 	"strings"
 	"testing"
 
-	"free5gclib/nas/nasMessage"
 	"free5gclib/nas/nasTestpacket"
 	"free5gclib/nas/nasType"
 	"free5gclib/openapi/models"
@@ -556,6 +555,5 @@ func c09ULTransport(c c09Case, vd *ev.Verdict, fail failer) ev.Verdict {
 
 func TestC09_OnPath(t *testing.T) {
 	r := ev.New(t, "C09", "TestC09_OnPath")
-	_ = nasMessage.Epd5GSMobilityManagementMessage
 	ev.Run(t, r, genC09, c09Oracle)
 }
